@@ -5,6 +5,7 @@ from __future__ import annotations
 import json
 import os
 import subprocess
+import time
 import sys
 
 from ..common import BUILD_DIR, VERIF, Run
@@ -43,12 +44,31 @@ def run(tier, seed):
     spec = passes[0]
     parts = NPROC
     specs = [{**sp, "part": (k + seed) % parts, "parts": parts} for sp in passes for k in range(parts)]
+    from ..common import BUDGET
+
+    def bounded_child(sp):
+        # a partition that does not finish within the check's time budget is reported as not explored
+        left = 7200 if BUDGET["deadline"] is None else BUDGET["deadline"] - time.time()
+        if left < 30:
+            return None
+        try:
+            return child(sp, timeout=left)
+        except subprocess.TimeoutExpired:
+            return None
+
     with ThreadPoolExecutor(parts) as ex:
-        procs = list(ex.map(child, specs))
+        procs = list(ex.map(bounded_child, specs))
+    unfinished = [sp for sp, p in zip(specs, procs, strict=True) if p is None]
+    if unfinished:
+        BUDGET["skipped"] += len(unfinished)
+        run.coverage["partitions_not_completed"] = [{"depth": sp["depth"], "backends": sp["backends"], "part": sp["part"]}
+                                                    for sp in unfinished]
     spec = {"depth": max(p["depth"] for p in passes), "backends": sorted({b for p in passes for b in p["backends"]})}
     res = {"states": 0, "transitions": 0, "nontrivial": 0, "sample": None}
     died = False
     for sp, p in zip(specs, procs, strict=True):
+        if p is None:
+            continue
         if p.returncode != 0:
             what = (p.stderr or "")[-1500:]
             kind = "process-crash" if p.returncode < 0 or "free()" in what or "double free" in what or "corrupt" in what else "harness-error"
@@ -88,7 +108,7 @@ def run(tier, seed):
              "interposer table with unchanged contents and reads back the expected values; no array is ever freed "
              "twice; after GC and at the end of every history no array of an unreachable result is still allocated. "
              "non-trivial = canonical states holding at least one kernel-allocated result",
-        exhaustive=True,
+        exhaustive=not unfinished,
     )
 
 
